@@ -38,6 +38,7 @@ class Task:
         self.label = label or key
         self.body = None
         self.prologue = None
+        self.case = None
         self.allowed_field_writes = ()
 
 
@@ -300,6 +301,8 @@ class Engine:
 
     def run_path(self, ex, task, res):
         ctx = task.setup(ex)
+        if task.case is not None:
+            ex.assume(task.case(ex, ctx))
         # reachability cover: requires + invariants must be satisfiable
         if ex.check_sat() == z3.unsat:
             raise PathEnd()
